@@ -69,6 +69,15 @@ for _name in T2PKS_PROFILES:
     DOMAIN_PROFILES.setdefault(_name, 60)
 
 
+def terpene_profiles() -> List[Dict[str, Any]]:
+    """ name, length and cutoff of the terpene profiles the terpene module knows (its own data file) """
+    import antismash.modules.terpene as terpene
+    path = os.path.join(os.path.dirname(terpene.__file__), "data", "hmm_properties.json")
+    with open(path, encoding="utf-8") as handle:
+        return [{"name": p["name"], "length": int(p["length"]), "cutoff": float(p["cutoff"])}
+                for p in json.load(handle)["profiles"]]
+
+
 def module_layout(rng: Any) -> List[Any]:
     """ A seeded domain layout for one gene: 1-3 modules in the grammar the module builder documents
         ([starter] loader [modification...] carrier [finalisation]), including trans-AT modules, CoA-ligase
@@ -313,6 +322,8 @@ def _install(inv: Dict[str, Any]) -> None:
     utils.get_hmm_lengths = lengths
     from antismash.modules.t2pks import t2pks_analysis
     t2pks_analysis.get_hmm_lengths = lengths       # imported there by name
+    from antismash.modules.terpene import terpene_analysis
+    terpene_analysis.run_hmmscan = fake_scan       # imported there by name
 
     clock = SimClock(float(inv.get("clock", EPOCH)))
 
